@@ -385,7 +385,7 @@ c03_total!(c03_total_6, 6, 6, false);
 //@ assumes=option map is the fixed-capacity array model
 c03_total!(c03_framing_7, 7, 6, true);
 
-//@ props=C03,C02 tier=thorough timeout=3600 mem=32 cap=4 ilist=1 name=c03_framing_8
+//@ props=C03,C02 tier=experimental timeout=3600 mem=32 cap=4 ilist=1 name=c03_framing_8
 //@ functions=Packet::from_bytes
 //@ bounds=every byte string of length 0..8; unwind 7
 //@ what=as c03_framing_7 at 8 bytes
@@ -456,7 +456,7 @@ c03_content!(c03_content_c, 14, |b: &mut [u8; 14]| {
     b[12] = 0xFF;
 });
 
-//@ props=C03 tier=thorough timeout=3600 mem=32 cap=7 ilist=1 name=c03_total_11
+//@ props=C03 tier=experimental timeout=3600 mem=32 cap=7 ilist=1 name=c03_total_11
 //@ functions=Packet::from_bytes, HeaderRaw::try_from, Header::from_raw, MessageClass::from
 //@ bounds=every byte string of length 0..11 (length and all bytes symbolic); unwind 10
 //@ what=as c03_total_8 at 11 bytes: room for a token plus two extended-delta options, or the 65535 option-number overflow via two 3-byte headers
@@ -854,7 +854,7 @@ c01_api_order!(c01_api_order_asc_23, 11, 23, false);
 //@ what=as c01_api_order_desc_300
 c01_api_order!(c01_api_order_desc_24, 11, 24, true);
 
-//@ props=C01 tier=thorough timeout=3000 mem=24 cap=4
+//@ props=C01 tier=experimental timeout=3000 mem=24 cap=4
 //@ functions=Packet::to_bytes_internal (running delta over three options)
 //@ bounds=three options in slots 0..2 with symbolic numbers n1 < n2 < n3, value lengths 0..2 (symbolic) of one symbolic byte; payload of one symbolic byte, code symbolic
 //@ what=each header encodes the difference to the previous number and its own length; marker and payload follow iff code != 0.00
